@@ -189,7 +189,7 @@ def _run_rollup_step(arg):
     run = arg["run"]
     random.seed(1)
     np.random.seed(1)
-    res = W.run_rollup(run["src"], run["dest"], level="psm", sched_desc={"mode": "fifo"}, knobs=run.get("knobs"),
+    res = W.run_rollup(run["src"], run["dest"], level=run.get("level", "psm"), sched_desc={"mode": "fifo"}, knobs=run.get("knobs"),
                        glob_seed=run.get("glob_seed"), faults=[run["fault"]] if run.get("fault") else None)
     rep = res.fs.report()
     rep["error"] = res.error
